@@ -61,7 +61,7 @@ pub fn paragraphs(h: &crate::harvest::Harvest, tier: Tier) -> Vec<String> {
     let mut v: Vec<String> = set.into_iter().collect();
     v.sort_by(|a, b| (a.len(), a).cmp(&(b.len(), b)));
     // bound: the shortest N (nothing sampled: the bound is on length rank)
-    let cap = tier.pick(80, 1200);
+    let cap = tier.pick(80, 400);
     // keep the hand-written heavy ones regardless of length
     let mut out: Vec<String> = v.iter().take(cap).cloned().collect();
     for s in v.iter().skip(cap) {
@@ -90,11 +90,11 @@ pub fn rests(h: &crate::harvest::Harvest, tier: Tier) -> Vec<String> {
         &h.seeds,
         &G3Opts { prefixes: true, suffixes: false, windows: 0, deletions: false, ends: vec!["".into()], second_order: false, ws_variants: vec![] },
     );
-    let cap = tier.pick(200, 30000);
+    let cap = tier.pick(200, 8000);
     for s in pre.into_iter().take(cap) {
         set.insert(s);
     }
-    for w in h.vocab.iter().take(tier.pick(60, 1500)) {
+    for w in h.vocab.iter().take(tier.pick(60, 300)) {
         for t in ["e.g", "etc", "vs", "et al", "1st", "isn't", "...", "i.e.", "U.S.A.", "1990s", "3rd", "then", "\"", "."] {
             set.insert(format!("{w} {t}"));
             set.insert(format!("{t} {w}"));
